@@ -140,16 +140,19 @@ impl IndexRead {
     pub async fn iter_available_hunks(self) -> IndexHunkIter {
         let _span = debug_span!("iter_hunks", ?self.transport).entered();
         let mut errors = Vec::new();
+        let mut listing_failed = false;
         let hunks = match self.hunks_available().await {
             Ok(hunks) => hunks,
             Err(err) => {
                 error!("Error listing index hunks: {err}");
                 errors.push(err);
+                listing_failed = true;
                 Vec::new()
             }
         };
         debug!(?hunks);
         IndexHunkIter {
+            listing_failed,
             hunks_listed: hunks.len(),
             hunks: hunks.into_iter(),
             index: self,
@@ -170,6 +173,8 @@ pub struct IndexHunkIter {
     after: Option<Apath>,
     /// How many hunk files were found in the index directory.
     hunks_listed: usize,
+    /// The index directory could not be listed: nothing is known about this index.
+    listing_failed: bool,
     /// The hunk number that should come next, if none is missing.
     next_expected: u32,
     /// Problems met so far: hunks that are missing or can't be read are skipped, and
@@ -255,6 +260,12 @@ impl IndexHunkIter {
     /// The number of hunk files found in the index directory.
     pub fn hunks_listed(&self) -> usize {
         self.hunks_listed
+    }
+
+    /// True if the index directory could not be listed, so that nothing is known about how far
+    /// this index goes.
+    pub fn listing_failed(&self) -> bool {
+        self.listing_failed
     }
 
     /// Advance self so that it returns only entries with apaths ordered after `apath`.
